@@ -340,7 +340,9 @@ impl<'a> TypeEncoder<'a> {
             self.import_deps(state, used.interface);
         }
 
-        // Encode any required aliases
+        // Encode any required aliases. They are visible to the instance type only: the
+        // used types of the enclosing scope must survive the encoding of this instance.
+        let outer_aliases = std::mem::take(&mut state.current.type_aliases);
         self.use_aliases(state, &interface.uses, &interface.exports);
         state.push(Encodable::Instance(InstanceType::default()));
 
@@ -358,7 +360,16 @@ impl<'a> TypeEncoder<'a> {
             }
         }
 
-        match state.pop() {
+        let encoded = state.pop();
+
+        // Restore the enclosing scope's aliases; the aliases of this instance stay
+        // available under names the enclosing scope does not use itself.
+        let aliases = std::mem::replace(&mut state.current.type_aliases, outer_aliases);
+        for (name, index) in aliases {
+            state.current.type_aliases.entry(name).or_insert(index);
+        }
+
+        match encoded {
             Encodable::Instance(ty) => {
                 let index = state.current.encodable.type_count();
                 state.current.encodable.ty().instance(&ty);
